@@ -44,6 +44,8 @@ Record case := mk_case {
   c_tree : list fnode;
   c_dbnames : list (string * list string);     (* observed DBNames with the winning bind path *)
   c_fields : list fdesc;                       (* columns in DBNames order *)
+  c_hpk : list bool;                           (* per column: primary key as the STRUCT declares it
+                                                  (primaryKey tag, else the field named ID) *)
   c_prio : string; c_prio_hasdef : bool;       (* PrioritizedPrimaryField *)
   (* the call *)
   c_ret : bool; c_op : op; c_base : Z; c_now : Z;
@@ -132,7 +134,10 @@ Definition spec_holds (c : case) : bool :=
     && all2 (fun a m => is_nil m || all3 (fun f x d => dbval_eqb (proj (fd_kind f) x) d) fs a m) (o_after c) (o_mmap c)
     && all2 (fun a m => all3 (fun f x d => dbval_eqb (proj (fd_kind f) x) d) fs a m) (o_after c) (o_tmap c)
     (* every in-memory record carries the primary key of the row that stores it *)
-    && all2 (fun a row => all3 (fun f x d => negb (fd_pk f) || dbval_eqb (proj (fd_kind f) x) d) fs a row) (o_after c) (o_rows c)
+    && all2 (fun a row => all3 (fun fp x d => negb (snd fp) ||
+                                          (dbval_eqb (proj (fd_kind (fst fp)) x) d && negb (is_zero (fd_kind (fst fp)) x)))
+                                 (combine fs (c_hpk c)) a row) (o_after c) (o_rows c)
+    && (length (c_hpk c) =? length fs)%nat
     (* ... in slice order: the slice of maps is not reshaped *)
     && (negb (is_map_op (c_op c)) || (o_nmaps c =? n)).
 
@@ -149,7 +154,9 @@ Definition spec_parts (c : case) : list bool :=
     all2 (fun b a => all3 (fun f x y => is_zero (fd_kind f) x || goval_eqb x y) fs b a) (c_before c) (o_after c);
     all2 (fun a m => is_nil m || all3 (fun f x d => dbval_eqb (proj (fd_kind f) x) d) fs a m) (o_after c) (o_mmap c);
     all2 (fun a m => all3 (fun f x d => dbval_eqb (proj (fd_kind f) x) d) fs a m) (o_after c) (o_tmap c);
-    all2 (fun a row => all3 (fun f x d => negb (fd_pk f) || dbval_eqb (proj (fd_kind f) x) d) fs a row) (o_after c) (o_rows c);
+    all2 (fun a row => all3 (fun fp x d => negb (snd fp) ||
+                                          (dbval_eqb (proj (fd_kind (fst fp)) x) d && negb (is_zero (fd_kind (fst fp)) x)))
+                                 (combine fs (c_hpk c)) a row) (o_after c) (o_rows c);
     (negb (is_map_op (c_op c)) || (o_nmaps c =? n)) ].
 Definition model_parts (c : case) : list bool :=
   let fs := c_fields c in
